@@ -47,7 +47,13 @@ impl Gf2 {
         self.rows.push((v, rhs));
     }
     /// Some(rank) if consistent, None if inconsistent
-    fn solve(mut self) -> Option<usize> {
+    fn solve(self) -> Option<usize> {
+        self.reduce().map(|(rank, _)| rank)
+    }
+
+    /// Reduced row echelon form: Some((rank, coordinates that are determined on their own)) if the
+    /// system is consistent.
+    fn reduce(mut self) -> Option<(usize, Vec<usize>)> {
         let mut rank = 0;
         for col in 0..self.nvars {
             let Some(p) = (rank..self.rows.len()).find(|r| self.rows[*r].0[col / 64] >> (col % 64) & 1 == 1) else { continue };
@@ -66,7 +72,15 @@ impl Gf2 {
         if self.rows.iter().any(|(v, r)| *r && v.iter().all(|w| *w == 0)) {
             return None;
         }
-        Some(rank)
+        // a coordinate is determined iff its pivot row has no other coefficient
+        let mut determined = vec![];
+        for (v, _) in self.rows.iter().take(rank) {
+            if v.iter().map(|w| w.count_ones()).sum::<u32>() == 1 {
+                let w = v.iter().position(|w| *w != 0).unwrap();
+                determined.push(w * 64 + v[w].trailing_zeros() as usize);
+            }
+        }
+        Some((rank, determined))
     }
 }
 
@@ -81,11 +95,18 @@ pub fn test_once(inputs_seed: u64) -> Result<String, Fail> {
     let msgs = &run.res.msgs;
     // victim = party 1 (its first OT-extension session towards party 0 is the receiver session)
     let (victim, peer) = (1usize, 0usize);
-    let l = case.circ.num_inputs(); // no AND gates: secret bits = inputs
-    let lprime = l + RHO + 3 * RHO;
-    let m = lprime.next_multiple_of(8);
-    let ncols = m + 128 + RHO;
+    let l = case.circ.num_inputs(); // no AND gates: the returned shares are the input masks
     let infra = |s: &str| Fail::new("INFRA", format!("linear leakage test: {s}"));
+    // sizes are read off the wire, so that a change of the number of sacrificed bits is judged, not skipped
+    let setup = msgs.iter().find(|x| x.from == victim && x.to == peer && x.label == "ALSZ_OT_setup" && x.label_occ == 0).ok_or_else(|| infra("no OT-extension matrix message"))?;
+    let Some(Val::Seq(rows)) = decode(setup) else { return Err(infra("OT-extension matrix does not decode")) };
+    let Some(Val::Bytes(row0)) = rows.first() else { return Err(infra("empty OT-extension matrix")) };
+    let ncols = row0.len() * 8;
+    let npad = 128 + RHO;
+    if ncols <= npad + l {
+        return Ok("model of the public coins is stale for this tree: not judged".to_string());
+    }
+    let m = ncols - npad;
     let (sa, sb) = (opening(msgs, victim, peer, 0).ok_or_else(|| infra("no pairwise opening"))?, opening(msgs, peer, victim, 0).ok_or_else(|| infra("no pairwise opening"))?);
     let pair_seed: [u8; 32] = std::array::from_fn(|i| sa[i] ^ sb[i]);
     let (ma, mb) = (opening(msgs, victim, peer, 1).ok_or_else(|| infra("no multi opening"))?, opening(msgs, peer, victim, 1).ok_or_else(|| infra("no multi opening"))?);
@@ -103,66 +124,86 @@ pub fn test_once(inputs_seed: u64) -> Result<String, Fail> {
     let Some(Val::Seq(kv)) = decode(kos) else { return Err(infra("KOS check message does not decode")) };
     let Some(Val::Tup(t)) = kv.first() else { return Err(infra("empty KOS check message")) };
     let Val::B16(xblock) = t[0] else { return Err(infra("bad KOS check message")) };
-    // aBit test combinations
+    let fab = msgs.iter().find(|x| x.from == victim && x.to == peer && x.label == "fabitn" && x.label_occ == 0).ok_or_else(|| infra("no fabitn message"))?;
+    let Some(Val::Seq(fv)) = decode(fab) else { return Err(infra("fabitn does not decode")) };
+    let xj: Vec<bool> = fv.iter().map(|e| if let Val::Tup(t) = e { matches!(t[0], Val::Bool(1)) } else { false }).collect();
+    let ver = msgs.iter().find(|x| x.from == victim && x.to == peer && x.label == "fashare ver" && x.label_occ == 0).ok_or_else(|| infra("no fashare ver message"))?;
+    let Some(Val::Seq(vv)) = decode(ver) else { return Err(infra("fashare ver does not decode")) };
+    let opened: Vec<bool> = vv.iter().map(|e| if let Val::Bytes(b) = e { b.first().copied().unwrap_or(0) == 1 } else { false }).collect();
+    if xj.is_empty() || l + opened.len() > m {
+        return Ok("model of the public coins is stale for this tree: not judged".to_string());
+    }
+    // aBit test combinations; the length of the private bit string is m or up to 7 bits less
     let mut mrg = ChaCha20Rng::from_seed(multi_seed);
     let mut aes_seed = [0u8; 16];
     mrg.fill_bytes(&mut aes_seed);
-    let blocks = lprime.div_ceil(128);
-    let stream = polytune::verif::aes_rng_fill_seq(aes_seed, &vec![16usize; 3 * RHO * blocks]);
+    let mut model: Option<(usize, Vec<Vec<u8>>, usize)> = None;
+    for lprime in (m.saturating_sub(7)..=m).rev() {
+        if lprime < l + opened.len() {
+            continue;
+        }
+        let blocks = lprime.div_ceil(128);
+        let stream = polytune::verif::aes_rng_fill_seq(aes_seed, &vec![16usize; xj.len() * blocks]);
+        let rbit = |t: usize, i: usize| -> bool {
+            let blk = &stream[t * blocks + i / 128];
+            let k = i % 128;
+            blk[k / 8] >> (k % 8) & 1 == 1
+        };
+        // control: the aBit + opened equations alone must be consistent (the model of the public coins is right)
+        let mut ctl = Gf2::new(lprime);
+        for (t, b) in xj.iter().enumerate() {
+            ctl.add((0..lprime).map(|i| (i, rbit(t, i))), *b);
+        }
+        for (r, b) in opened.iter().enumerate() {
+            ctl.add(std::iter::once((l + r, true)), *b);
+        }
+        if ctl.solve().is_some() {
+            model = Some((lprime, stream, blocks));
+            break;
+        }
+    }
+    // the harness' model of the public coins does not fit this tree: nothing can be concluded
+    let Some((lprime, stream, blocks)) = model else { return Ok("model of the public coins is stale for this tree: not judged".to_string()) };
     let rbit = |t: usize, i: usize| -> bool {
         let blk = &stream[t * blocks + i / 128];
         let k = i % 128;
         blk[k / 8] >> (k % 8) & 1 == 1
     };
-    let fab = msgs.iter().find(|x| x.from == victim && x.to == peer && x.label == "fabitn" && x.label_occ == 0).ok_or_else(|| infra("no fabitn message"))?;
-    let Some(Val::Seq(fv)) = decode(fab) else { return Err(infra("fabitn does not decode")) };
-    let xj: Vec<bool> = fv.iter().map(|e| if let Val::Tup(t) = e { matches!(t[0], Val::Bool(1)) } else { false }).collect();
-    if xj.len() != 3 * RHO {
-        return Err(infra("unexpected number of aBit test bits"));
-    }
-    let ver = msgs.iter().find(|x| x.from == victim && x.to == peer && x.label == "fashare ver" && x.label_occ == 0).ok_or_else(|| infra("no fashare ver message"))?;
-    let Some(Val::Seq(vv)) = decode(ver) else { return Err(infra("fashare ver does not decode")) };
-    let opened: Vec<bool> = vv.iter().map(|e| if let Val::Bytes(b) = e { b.first().copied().unwrap_or(0) == 1 } else { false }).collect();
-    // sanity: the aBit equations must hold for the true system (otherwise the harness' model of the
-    // public coins is stale and nothing can be concluded)
-    for (hyp_name, pad) in [("all zero", false), ("all one", true)] {
-        let mut sys = Gf2::new(lprime);
+    let chi = |j: usize, k: usize| chis[j][k / 8] >> (k % 8) & 1 == 1;
+    // the peer's whole linear view; the blinding bits are unknowns u_0..u_{p-1} repeated with period p
+    // (p = number of blinding bits: every one of them free, as it should be)
+    let threshold = (l / 2).max(4).min(l);
+    let mut least_rank_gap = usize::MAX;
+    for p in [npad, 1, 8, 16, 32, 64] {
+        let nvars = lprime + p;
+        let mut sys = Gf2::new(nvars);
         for k in 0..128 {
-            // X[k] = sum_{j<lprime} x_j chi_j[k] + sum_{pad j} pad * chi_j[k]
-            let mut rhs = xblock[k / 8] >> (k % 8) & 1 == 1;
-            if pad {
-                for c in &chis[m..ncols] {
-                    rhs ^= c[k / 8] >> (k % 8) & 1 == 1;
-                }
+            let mut coeff = vec![false; nvars];
+            for (j, c) in coeff.iter_mut().enumerate().take(lprime) {
+                *c = chi(j, k);
             }
-            sys.add((0..lprime).map(|j| (j, chis[j][k / 8] >> (k % 8) & 1 == 1)), rhs);
+            for q in 0..npad {
+                coeff[lprime + q % p] ^= chi(m + q, k);
+            }
+            sys.add(coeff.into_iter().enumerate(), xblock[k / 8] >> (k % 8) & 1 == 1);
         }
-        for t in 0..3 * RHO {
-            sys.add((0..lprime).map(|i| (i, rbit(t, i))), xj[t]);
+        for (t, b) in xj.iter().enumerate() {
+            sys.add((0..lprime).map(|i| (i, rbit(t, i))), *b);
         }
         for (r, b) in opened.iter().enumerate() {
             sys.add(std::iter::once((l + r, true)), *b);
         }
-        if let Some(rank) = sys.solve() {
-            if rank == lprime {
+        if let Some((rank, determined)) = sys.reduce() {
+            least_rank_gap = least_rank_gap.min(nvars - rank);
+            let det_inputs = determined.iter().filter(|i| **i < l).count();
+            if det_inputs >= threshold {
+                let hyp = if p == npad { "without any assumption on the blinding bits of the OT-extension consistency check".to_string() } else { format!("under the hypothesis that the blinding bits of the OT-extension consistency check repeat with period {p}") };
                 return Err(Fail::new(
                     "C06|mask-shares-determined-by-transcript",
-                    format!("under the hypothesis that the blinding bits of the OT-extension consistency check are {hyp_name}, the {} linear equations the peer sees (KOS check value, aBit test bits, opened aShare bits; public coins recomputed from the coin-toss openings) are consistent and determine all {lprime} private bits of party {victim}, including its input mask shares", 128 + 3 * RHO + RHO),
+                    format!("{hyp}, the {} linear equations the peer sees (KOS check value, {} aBit test bits, {} opened aShare bits; public coins recomputed from the coin-toss openings; private bit string of {lprime} bits) are consistent and determine {det_inputs} of the {l} mask shares party {victim} returns to the online phase", 128 + xj.len() + opened.len(), xj.len(), opened.len()),
                 ));
             }
         }
     }
-    // control: the aBit + opened equations alone must be consistent (the model of the public coins is right)
-    let mut ctl = Gf2::new(lprime);
-    for t in 0..3 * RHO {
-        ctl.add((0..lprime).map(|i| (i, rbit(t, i))), xj[t]);
-    }
-    for (r, b) in opened.iter().enumerate() {
-        ctl.add(std::iter::once((l + r, true)), *b);
-    }
-    match ctl.solve() {
-        Some(rank) => Ok(format!("lprime={lprime}, rank of aBit+opened equations={rank}, hypothesis systems inconsistent")),
-        // the harness' model of the public coins does not fit this tree: nothing can be concluded
-        None => Ok("model of the public coins is stale for this tree: not judged".to_string()),
-    }
+    Ok(format!("lprime={lprime}, test bits={}, opened={}, free-blinding system leaves >= {least_rank_gap} dimensions open, periodic-blinding hypotheses inconsistent or undetermined", xj.len(), opened.len()))
 }
